@@ -142,6 +142,10 @@ func c11AllParsers(b []byte) *vstat.Violation {
 				return v
 			}
 		}
+		// the command line's key readers are callers of these parsers: the same bytes as a file
+		if v := cliReadsKey(b); v != nil {
+			return v
+		}
 		// config parsers: (nil,nil) only for empty (after trimming) input
 		s := string(b)
 		empty := len(bytes.TrimSpace([]byte(s))) == 0
@@ -529,6 +533,9 @@ func c11Malformed(c c11Case, o *vstat.Outcome) *vstat.Violation {
 		var pk crypto.PrivKey
 		var err error
 		if usePEM {
+			if v := cliReadsKey(in); v != nil {
+				return v
+			}
 			pk, err = keypem.ParsePrivKeyPem(in)
 			if blk, _ := pem.Decode(in); blk == nil {
 				return nil
